@@ -737,6 +737,9 @@ impl crate::explore::CaseSpace for AttrReads {
     fn name(&self) -> String {
         "attribute-reads".into()
     }
+    fn seeded(&self) -> bool {
+        true
+    }
     fn total(&self) -> usize {
         ATTR_COUNTS.len() * 3 * 3 * 2
     }
